@@ -207,6 +207,9 @@ def oracle_batch(args):
         snaps = list(t)
         own = [s for s in snaps if s["time"] > last["time"]]
         if not own:
+            # born on the step at which a limit is met: the child must still be recorded where it starts
+            problems.append("child born at t=%r has no snapshot of its own: its start (the parent's point at the hop time, on the "
+                            "target state) is not in its trace" % last["time"])
             continue
         first = own[0]
         if not close(first["time"], last["time"] + args["dt"], abs(first["time"]) + 1, rtol=1e-12):
@@ -451,6 +454,13 @@ def run(ctx):
         if not ok:
             ctx.oracle_fail("spawn-generations", "generations", a, obs, req, text)
 
+    # corpus: a spawn on the step at which the parent leaves the box (C16 thorough, seed 77)
+    a = dict(model="dual", x0=-5.910094565027199, k=24.449487706745874, seed=926698, dt=20.0, box=1.6821206732895315,
+             maxsteps=3000, stack=[3], quadrature="trapezoid", mcsamples=1)
+    ok, obs, req, text = oracle_batch(a)
+    ctx.case(("batch-corpus", "born-on-exit-step"))
+    if not ok:
+        ctx.oracle_fail("es-child-born-finished-not-logged" if "no snapshot of its own" in text else "batch-weights", "batch", a, obs, req, text)
     for i in range(ctx.budget(8, 150)):
         a = dict(model=["simple", "dual", "extended", "super"][i % 4], x0=float(-rng.uniform(3.5, 6)), k=float(rng.uniform(6, 28)),
                  seed=int(rng.integers(1, 10 ** 6)), dt=20.0, box=float(rng.uniform(2.0, 3.0)), maxsteps=2500,
